@@ -77,7 +77,10 @@ func candidates(c *c01case) []*c01case {
 		}
 	}
 	if c.RtMax > 0 {
-		add(func(d *c01case) bool { d.RtMax = 0; return true })
+		add(func(d *c01case) bool { d.RtMax = 0; d.RtOpts = nil; return true })
+		if len(c.RtOpts) > 1 {
+			add(func(d *c01case) bool { d.RtOpts = nil; return true }) // the effective limit alone
+		}
 	}
 	for gi := range c.Forest {
 		gi := gi
